@@ -78,6 +78,12 @@ def plan(tier, seed):
             pats = ["*.py:" + str(sites[i]) for i in sub]
             jobs.append(dict(base, id=f"{j['cid']}|diag:{dname}|{j['id']}", files={"pkg/code.py": b64(j["src"].encode())}, argv=["{proj}", "--output", "{out}", "--codemod-include", j["cid"], "--path-" + mode, ",".join(pats)],
                              mode=mode, sub=sub, spell="*.py:{n}", diag=dname, monitors={"snap": False}))
+        # two runs in ONE process on the same project: the first excludes every site (and must leave the file alone), the second is an ordinary judged case;
+        # nothing of the first run's line lists may survive into the second
+        for mode, sub in ((("include", (0,)), ("exclude", (K - 1,))) if tier != "quick" else ((("include", (0,)), ("exclude", (K - 1,)))[len(jobs) % 2],)):
+            first = ["{proj}", "--output", "{out}", "--codemod-include", j["cid"], "--path-exclude", ",".join("*.py:" + str(sites[i]) for i in range(K))]
+            second = ["{proj}", "--output", "{out}", "--codemod-include", j["cid"], "--path-" + mode, ",".join("pkg/code.py:" + str(sites[i]) for i in sub)]
+            jobs.append(dict(base, id=f"{j['cid']}|two-runs|{mode}|{j['id']}", files={"pkg/code.py": b64(j["src"].encode())}, argv=[], steps=[first, second], mode=mode, sub=sub, spell="pkg/code.py:{n}", two_runs=True, monitors={"snap": False}))
         for sub in picks:
             for mode in ("exclude", "include"):
                 allowed = spellings[:4] if mode == "exclude" else spellings[:3]  # absolute spelling only for excludes
@@ -118,10 +124,14 @@ _raw = []   # provisional violations, keyed in finalize() once the diagnostic ca
 
 def judge(job, res):
     v = []; st = collections.Counter(); nt = []
-    run = res["runs"][0]
+    run = res["runs"][-1]            # two-run jobs: the second run is the judged one (the first excluded every site)
     if run["rc"] != 0 or run["exc"]:
         st["run_failed"] += 1; return v, st, nt
     t = run["tree"].get("pkg/code.py"); after = unb(t[2:]).decode("utf-8", "replace")
+    if job.get("two_runs"):
+        st["two_run_cases"] += 1
+        t0_ = res["runs"][0]["tree"].get("pkg/code.py")
+        if t0_ is None or unb(t0_[2:]).decode("utf-8", "replace") != job["src"]: st["two_run_first_run_not_neutral"] += 1; return v, st, nt    # the first run did rewrite something (a diagnostic case reports that): the second is not judgeable
     rewritten = S.sites_changed(job["src"], after, K)
     permitted = set(range(K)) - set(job["sub"]) if job["mode"] == "exclude" else set(job["sub"])
     nt.append(job["id"]); st["fired:" + job["cid"]] += 1
@@ -148,6 +158,7 @@ def finalize(stats, counters):
         elif r["cm"] in diag_fail: key = f"line-filter-not-applied/{r['cm']}"
         elif r["filter_lost"]: key = f"line-pattern-not-matched/{r['spell']}-spelling" + ("" if r["job"].get("target", "abs") == "abs" else "/target-" + r["job"]["target"])          # the pattern never reached the transformer
         elif r["job"].get("interleaved"): key = f"{r['kind']}/interleaved-pattern-list"
+        elif r["job"].get("two_runs"): key = f"{r['kind']}/second-run-in-one-process"
         else: key = f"{r['kind']}/{r['cm']}/{r['spell']}-spelling" + ("" if r["job"].get("target", "abs") == "abs" else "/target-" + r["job"]["target"])
         out.append(Violation("C13", key, r["what"], r["w"], jobs=[r["job"]]))
     extra = {"codemods_failing_a_diagnostic_case": sorted(diag_fail), "seeds_left_unjudged": dict(SKIPPED)}
